@@ -53,6 +53,15 @@ func (v *Verifier) NewUnit(fn *ssa.Function) *Unit {
 	u.cx = NewCtx(v.enc, v.spec, u.name)
 	u.entry = u.cx.InitState("0")
 	u.cx.tree = u.entry
+	if bc != nil && bc.own != nil {
+		u.cx.fuel = bc.own.Unfold
+		if len(bc.own.UnfoldNames) > 0 {
+			u.cx.unfoldOnly = map[string]bool{}
+			for _, n := range bc.own.UnfoldNames {
+				u.cx.unfoldOnly[n] = true
+			}
+		}
+	}
 	u.cx.globalHook = func(name string) (*Term, bool) {
 		g, ok := v.enc.pkg.Members[name].(*ssa.Global)
 		if !ok {
